@@ -40,24 +40,26 @@ VARIABLES A, mode, reach, work, pend, fired, remaining, out
 vars == <<A, mode, reach, work, pend, fired, remaining, out>>
 NonLeaf(X) == {r \in X.rules : Len(r[2]) > 0}
 
+\* the bookkeeping both functions set up before their loops
+Begin(X, m) ==
+  IF m = "unreach"
+  THEN [reach |-> X.fin, work |-> X.fin, pend |-> <<>>, fired |-> {}, remaining |-> 0]
+  ELSE LET leaves == {x \in X.rules : Len(x[2]) = 0} IN
+       [reach |-> {r[3] : r \in leaves}, work |-> {r[3] : r \in leaves},
+        pend |-> [r \in NonLeaf(X) |-> Kids(r)], fired |-> leaves,
+        remaining |-> LET F[S \in SUBSET NonLeaf(X)] == IF S = {} THEN 0 ELSE LET r == CHOOSE x \in S : TRUE IN Cardinality(Kids(r)) + F[S \ {r}]
+                      IN F[NonLeaf(X)]]
 Init ==
   /\ A \in Auts(0..(NQ - 1)) /\ mode \in {"unreach", "useless"} /\ out = <<>>
-  /\ IF mode = "unreach"
-     THEN /\ reach = A.fin /\ work = A.fin /\ pend = <<>> /\ fired = {} /\ remaining = 0
-     ELSE /\ reach = {r[3] : r \in {x \in A.rules : Len(x[2]) = 0}}
-          /\ work = {r[3] : r \in {x \in A.rules : Len(x[2]) = 0}}
-          /\ pend = [r \in NonLeaf(A) |-> Kids(r)]
-          /\ fired = {x \in A.rules : Len(x[2]) = 0}
-          /\ remaining = LET F[S \in SUBSET NonLeaf(A)] == IF S = {} THEN 0 ELSE LET r == CHOOSE x \in S : TRUE IN Cardinality(Kids(r)) + F[S \ {r}]
-                         IN F[NonLeaf(A)]
+  /\ LET b == Begin(A, mode) IN reach = b.reach /\ work = b.work /\ pend = b.pend /\ fired = b.fired /\ remaining = b.remaining
 
-PopUnreach ==
-  /\ mode = "unreach" /\ out = <<>> /\ work # {}
+PopUnreachOf(q) ==
+  /\ mode = "unreach" /\ out = <<>> /\ q \in work
   /\ ~(EarlyExit /\ Cardinality(reach) >= Cardinality(Owners(A)))
-  /\ \E q \in work :
-       LET new == UNION {Kids(r) : r \in RulesOf(A, q)} \ reach IN
+  /\ LET new == UNION {Kids(r) : r \in RulesOf(A, q)} \ reach IN
        /\ reach' = reach \cup new /\ work' = (work \ {q}) \cup new
   /\ UNCHANGED <<A, mode, pend, fired, remaining, out>>
+PopUnreach == \E q \in work : PopUnreachOf(q)
 FinishUnreach ==
   /\ mode = "unreach" /\ out = <<>>
   /\ work = {} \/ (EarlyExit /\ Cardinality(reach) >= Cardinality(Owners(A)))
@@ -65,10 +67,9 @@ FinishUnreach ==
      IN out' = IF same THEN A ELSE [fin |-> A.fin, rules |-> {r \in A.rules : r[3] \in reach}]
   /\ UNCHANGED <<A, mode, reach, work, pend, fired, remaining>>
 
-PopUseless ==
-  /\ mode = "useless" /\ out = <<>> /\ work # {}
-  /\ \E q \in work :
-       LET p2 == [r \in DOMAIN pend |-> pend[r] \ {q}]
+PopUselessOf(q) ==
+  /\ mode = "useless" /\ out = <<>> /\ q \in work
+  /\ LET p2 == [r \in DOMAIN pend |-> pend[r] \ {q}]
            now == {r \in DOMAIN pend : q \in pend[r] /\ p2[r] = {}}          \* rules whose last missing child was q
            dec == IF ArityDecrement
                   THEN LET F[S \in SUBSET now] == IF S = {} THEN 0 ELSE LET r == CHOOSE x \in S : TRUE IN Len(r[2]) + F[S \ {r}] IN F[now]
@@ -78,6 +79,7 @@ PopUseless ==
           /\ remaining' = IF dec > remaining THEN 1000 + dec - remaining ELSE remaining - dec      \* the unsigned counter wraps: never 0 again
           /\ reach' = reach \cup new /\ work' = (work \ {q}) \cup new
   /\ UNCHANGED <<A, mode, out>>
+PopUseless == \E q \in work : PopUselessOf(q)
 FinishUseless ==
   /\ mode = "useless" /\ out = <<>> /\ work = {}
   /\ LET res == [fin |-> A.fin \cap reach, rules |-> IF remaining = 0 THEN A.rules ELSE fired]
